@@ -10,8 +10,9 @@ def parse3 (nm np : Nat) (xs : List Float) : Option (Consts × CFFs × Pt) := do
   let p ← ptOfList ((xs.drop (4 + nm)).take np)
   if xs.length != 4 + nm + np then none else some (c, m, p)
 
-def NM : Nat := 18
-def NP : Nat := 22
+/-- numbers of CFF / point fields of the generated structures (Gen/BmkDispatchF.lean; 18 and 22 on the pinned tree) -/
+def NM : Nat := nCFFs
+def NP : Nat := nPt
 
 /-- ops (all numbers as hex floats, in the field order recorded in Gen/Bmk.info.json):
     c06.eval <set> <entry> c×4 m×18 pt×22       one translated coefficient / term
@@ -34,7 +35,9 @@ def handle (op : String) (args : List String) : String :=
     | none => "bad-op"
   | "c06.prepare", rest =>
     match (floats? rest).bind (parse3 NM NP) with
-    | some (c, _, p) => joinSp ((listOfPt (prepare c p)).map hexOfFloat)
+    | some (c, _, p) => match prepareEval c p with
+      | some q => joinSp ((listOfPt q).map hexOfFloat)
+      | none => "bad-op"      -- prepare was not translated (harness/bmkcommon.py reads "bad-op" as a broken model)
     | none => "bad-op"
   | "c06.xs", set :: target :: weighted :: in2pol :: rest =>
     match target.toNat?, floatOfHex? in2pol, (floats? rest).bind (parse3 NM NP) with
